@@ -217,6 +217,8 @@ def make_object(name, shared):
         return getattr(darsia, kind)(**kw)
     if name in ANDERSON:
         return darsia.AndersonAcceleration(**ANDERSON[name])
+    if name == "OPTS":
+        return {"num_iter": W_ITER, "return_info": True, "linear_solver": "direct", "formulation": "pressure"}
     if name in W_OPTS:
         method, opts = W_OPTS[name]
         opts = copy.deepcopy(opts)
@@ -269,6 +271,12 @@ def op_wf(m, p):
     return {"t": "w1f", "m": m, "p": p}
 
 
+def op_ws(m, p):
+    """New solver object of method m built from the caller-owned options dict OPTS (which does
+    not pin "L"), then one distance computation."""
+    return {"t": "w1s", "m": m, "p": p}
+
+
 def group_spec(g, tier):
     """-> (object names, alphabet, rebuild mode)."""
     H = "H1_regularization"
@@ -288,7 +296,7 @@ def group_spec(g, tier):
         ops += [op_solve("M1", None, "a88f")]
         return objs, ops, "snap"
     if g == "mg-het":
-        return ["Mh"], [op_set("Mh", ["P1", 0.5]), op_set("Mh", ["P2", 0.5]), op_solve("Mh", None, "a88"), op_solve("Mh", None, "d88")], "snap"
+        return ["Mh"], [op_set("Mh", ["P1", 0.5]), op_set("Mh", ["P2", 0.5]), op_set("Mh", [3.0, 0.5]), op_solve("Mh", None, "a88"), op_solve("Mh", None, "d88")], "snap"
     if g == "h1-default":
         ops = [op_h1(H, i, mu, om) for i in ("a66", "b49", "v662", "I66") for mu in (0.1, 5.0) for om in (1.0, 2.0)]
         ops += [op_h1(H, "c345", 0.1, 1.0, dim=3), op_h1(H, "c345", 5.0, 2.0, dim=3)]
@@ -323,6 +331,8 @@ def group_spec(g, tier):
         if o == "Wb-d":
             ops.append(op_wf("bregman", "P2"))
         return [o], ops, "replay"
+    if g == "w-shared-options":
+        return ["OPTS"], [op_ws("newton", "P1"), op_ws("bregman", "P1"), op_ws("bregman", "P2"), op_ws("newton", "P2")], "replay"
     if g == "w-shared":
         return ["Wn-d", "Wb-d"], [op_w(o, p) for o in ("Wn-d", "Wb-d") for p in ("P1", "P2")], "replay"
     if g == "cross":
@@ -346,7 +356,7 @@ def group_spec(g, tier):
 GROUPS = (
     ["jacobi", "mg", "mg-het", "h1-default", "h1-explicit", "tvd-default", "tvd-explicit", "anderson"]
     + ["w:" + o for o in W_OPTS]
-    + ["w-shared", "cross"]
+    + ["w-shared", "w-shared-options", "cross"]
 )
 
 
@@ -384,6 +394,8 @@ def slot_of(key):
         return "default:" + key["f"] if key["s"] == "default" else key["s"]
     if t in ("sbtvd", "tvd"):
         return "default:split_bregman_tvd" if key.get("s", "default") == "default" else key["s"]
+    if t == "w1s":
+        return "OPTS"
     return None  # w1f: a new object per call
 
 
@@ -403,6 +415,8 @@ def signature(key):
         return ((aa_problem(key["p"])[1].size,), None, None)
     if t in ("w1", "w1f"):
         return ((key["p"],), None, None)
+    if t == "w1s":
+        return ((key["m"], key["p"]), None, None)
     raise KeyError(t)
 
 
@@ -421,6 +435,8 @@ def api_of(key):
         return "anderson/" + {"A": "restart=None", "Ar": "restart=3", "At": "tensor"}[key["o"]]
     if t == "w1":
         return "wasserstein/" + key["o"]
+    if t == "w1s":
+        return "wasserstein/shared-options-dict/" + key["m"]
     return "wasserstein/function-" + key["m"]
 
 
@@ -432,7 +448,7 @@ def history_class(prev_keys, key):
         return "first-use-of-object"
     sig = signature(key)
     sigs = [signature(k) for k in mine]
-    word = {"aa": "dimension", "w1": "pair"}.get(key["t"], "coefficients")
+    word = {"aa": "dimension", "w1": "pair", "w1s": "method-or-pair"}.get(key["t"], "coefficients")
     if any(s[0] != sig[0] for s in sigs):
         return f"{word}-changed"
     if any(s[1] != sig[1] for s in sigs):
@@ -518,6 +534,12 @@ def exec_call(world, key):
     if t == "w1":
         d, info = world[key["o"]](*w_pair(key["p"]))
         return [_arr(d), _arr(info["flux"]), _arr(info["pressure"]), _arr(info["transport_density"])]
+    if t == "w1s":
+        if "grid" not in world:
+            world["grid"] = darsia.generate_grid(w_pair("P1")[0])
+        cls = darsia.WassersteinDistanceNewton if key["m"] == "newton" else darsia.WassersteinDistanceBregman
+        d, info = cls(world["grid"], None, world["OPTS"])(*w_pair(key["p"]))
+        return [_arr(d), _arr(info["flux"]), _arr(info["pressure"]), _arr(info["transport_density"])]
     if t == "w1f":
         opts = {"newton": {"L": 1e2}, "bregman": {"L": 1.0}}[key["m"]]
         opts.update(num_iter=W_ITER, return_info=True)
@@ -545,6 +567,8 @@ def fresh_run(key):
     slot = key.get("o") or (key.get("s") if key.get("s", "default") != "default" else None)
     if slot:
         world[slot] = make_object(slot, shared)
+    if key["t"] == "w1s":
+        world["OPTS"] = make_object("OPTS", shared)  # pristine caller-owned options dict
     if key["t"] == "solve" and key["via"] == "upd":
         apply_set(world, {"o": key["o"], "c": key["c"]})
     return observe(lambda: exec_call(world, key))
